@@ -21,8 +21,11 @@ TInit ==
   /\ i = 1 /\ conf = "run"
 
 E == Hist[h].steps[i]
-ObsOk(o) == /\ gen'["base"] = o.base /\ gen'["lexer"] = o.lexer /\ gen'["parser"] = o.parser
-            /\ (last'.op = "gen" => (last'.exit = 0) = (o.exit = 0) /\ last'.report = o.report)
+\* an observed class is the list of everything the bytes equal: "absent" / "junk" / "pkgx" / "other", or every
+\* specification s with bytes = Out(s) (sibling specifications share some of their files byte for byte)
+Has(l, x) == \E k \in DOMAIN l : l[k] = x
+ObsOk(o) == /\ Has(o.base, gen'["base"]) /\ Has(o.lexer, gen'["lexer"]) /\ Has(o.parser, gen'["parser"])
+            /\ (last'.op = "gen" => (last'.exit = 0) = (o.exit = 0) /\ Has(o.report, last'.report))
 
 Act ==
   CASE E.op = "gen" -> Gen(E.cwd, E.rep)
